@@ -357,8 +357,14 @@ class ObjNpModule(object):
                 return ONd(r)
             if name == 'eye':
                 return ONd(np.eye(*ua, **{k: v for k, v in uk.items() if k != 'dtype'}))
-            if name in ('cos', 'sin', 'sqrt', 'arccos', 'abs', 'absolute', 'sign', 'tan', 'arctan2', 'square', 'negative'):
+            if name in ('cos', 'sin', 'sqrt', 'arccos', 'abs', 'absolute', 'sign', 'tan', 'arctan2', 'square', 'negative', 'ceil', 'floor'):
                 return wrap(elementwise(name, ua))
+            if name in ('max', 'min', 'amax', 'amin') and is_sym(ua[0]) and uk.get('axis') is None and len(ua) == 1:
+                vals = list(to_obj(np.asarray(ua[0])).reshape(-1))
+                acc = vals[0]
+                for v in vals[1:]:
+                    acc = core.s_if(core.S.lift(v) >= core.S.lift(acc), v, acc) if name in ('max', 'amax') else core.s_if(core.S.lift(v) <= core.S.lift(acc), v, acc)
+                return acc
             if name in ('any', 'all'):
                 return reduce_bool(I, fr, ua[0], name, uk.get('axis', ua[1] if len(ua) > 1 else None), uk.get('keepdims', False))
             if name in ('not_equal', 'equal'):
@@ -466,6 +472,11 @@ def scalar_fn(name, v):
             return -v
         if name == 'sign':
             return core.s_if(v > 0, 1.0, core.s_if(v < 0, -1.0, 0.0))
+        if name in ('ceil', 'floor'):
+            k = core.fresh_int(name)
+            kr = S(z3.ToReal(k.t))
+            core._side.append(z3.And((kr - 1 < v).t, (v <= kr).t) if name == 'ceil' else z3.And((kr <= v).t, (v < kr + 1).t))
+            return kr
         raise Unsupported('np.%s of a symbolic scalar' % name)
     return float(getattr(np, name)(v))
 
